@@ -85,6 +85,7 @@ async def _main(case: dict, loop: asyncio.AbstractEventLoop) -> tuple[dict, dict
             self.done_at: dict[str, int] = {}
             self.cancel_seen: dict[str, list[int]] = {}
             self.start_noop_violations: list[dict] = []
+            self.teardown = False
 
         # -- bookkeeping
         def _register(self, task: asyncio.Task[Any], label: str) -> None:
@@ -125,6 +126,8 @@ async def _main(case: dict, loop: asyncio.AbstractEventLoop) -> tuple[dict, dict
                 await asyncio.sleep(spec["dur"] / 1e6)
                 out = spec["end"]
             except asyncio.CancelledError:
+                if self.teardown:
+                    raise
                 self.cancel_seen.setdefault(label, []).append(now())
                 if spec.get("spawn"):
                     self.add_extra(spec["spawn"], label + "c")
@@ -152,6 +155,8 @@ async def _main(case: dict, loop: asyncio.AbstractEventLoop) -> tuple[dict, dict
                         await asyncio.sleep(d / 1e6)
                     out = sc["end"]
                 except asyncio.CancelledError:
+                    if self.teardown:
+                        raise
                     self.cancel_seen.setdefault(label, []).append(now())
                     if sc["oc"]["d"] > 0:
                         await asyncio.sleep(sc["oc"]["d"] / 1e6)
@@ -253,7 +258,7 @@ async def _main(case: dict, loop: asyncio.AbstractEventLoop) -> tuple[dict, dict
     if not first:
         samples.append({"post": pending_post, "pre": [x.snap() for x in actors]})
     obs = {
-        "hist": [[x.hist[t] for t in x.loop_tasks] for x in actors],
+        "hist": [[[list(e) for e in x.hist[t]] for t in x.loop_tasks] for x in actors],
         "calls": [[{"kind": r["kind"], "ret": r["ret"], "raised": r["raised"]} for r in calls[a]] for a in range(n)],
         "runs": [r["ret"] for r in runs],
         "samples": samples,
@@ -262,17 +267,20 @@ async def _main(case: dict, loop: asyncio.AbstractEventLoop) -> tuple[dict, dict
         "final": [x.snap() for x in actors],
         "created": [x.created for x in actors],
         "done_at": [dict(x.done_at) for x in actors],
-        "cancel_seen": [x.cancel_seen for x in actors],
+        "cancel_seen": [{k: list(v) for k, v in x.cancel_seen.items()} for x in actors],
         "start_noop": [x.start_noop_violations for x in actors],
         "restart_delay_us": round(Actor.RESTART_DELAY.total_seconds() * 1e6),
     })
     # tear down (not observed)
-    for t in bg:
-        t.cancel()
     for x in actors:
-        for t in x.order:
+        x.teardown = True
+    for _ in range(5):
+        todo = [t for t in bg if not t.done()] + [t for x in actors for t in x.order if not t.done()]
+        if not todo:
+            break
+        for t in todo:
             t.cancel()
-    await asyncio.gather(*bg, *[t for x in actors for t in x.order], return_exceptions=True)
+        await asyncio.wait(todo, timeout=1000.0)
     for x in actors:
         x._tasks.clear()  # pylint: disable=protected-access
     return obs, facts
@@ -300,7 +308,9 @@ def gen_extra(rng: random.Random, label: str, allow_spawn: bool = True) -> dict:
                   "end": rng.choice(["ret", "ret", "exc", "base", "cancelled"]),
                   "oc": gen_oc(rng), "spawn": None}
     if allow_spawn and rng.random() < 0.3:
-        spec["spawn"] = {"dur": rng.choice([0, 1 * MS, 200 * MS, 1 * SEC, 30 * SEC]),
+        # (a clean-up task never uses `sleep(0)`: its bare yield would race with the wake-up of a stop() whose
+        #  position in the ready queue depends on the iteration order of the `_tasks` *set* — not determined by the code)
+        spec["spawn"] = {"dur": rng.choice([1 * MS, 1 * MS, 200 * MS, 1 * SEC, 30 * SEC]),
                          "end": rng.choice(["ret", "ret", "exc", "base"]), "oc": gen_oc(rng)}
     return spec
 
